@@ -145,7 +145,7 @@ pub fn check_on(c: &Case, ctx: &mut Ctx, ind: &mut Ind) -> Result<(), Failure> {
         lows.push(bar.l);
         let t = hist.len();
         let w0 = t - t.min(n);
-        if c.stride > 1 && matches!(k, Kind::FastStoch | Kind::Er | Kind::Cci | Kind::Mfi) && t > n + 2 && i % c.stride != 0 && i + 1 != len {
+        if c.stride > 1 && matches!(k, Kind::FastStoch | Kind::Er | Kind::Cci | Kind::Mfi) && (t > n + 2 || (n > 3000 && t > 4 && t + 2 < n)) && i % c.stride != 0 && i + 1 != len {
             if k == Kind::Mfi && t >= 2 && tp_dd(&bars[t - 2]).to_f64() != tp_dd(&bar).to_f64() {
                 mfi_big = mfi_big.max((tp_dd(&bar).to_f64() * bar.v).abs());
             }
@@ -508,6 +508,28 @@ pub fn run(g: &mut Global) {
             } else {
                 Case { cfg, scalar: false, xs: vec![], bars: (0..len).map(|_| gen.bar()).collect(), stride: n / 24 }
             }
+        },
+        &check,
+    );
+    // very long windows over a quiet market: CCI with 4 500 ... 10 000 slots on prices base*(1 +- a), a from 1e-5 to
+    // 5e-3 (a threshold that compares a per-element deviation with a whole-window quantity grows with the window
+    // and reaches well-conditioned territory only there)
+    g.exhaustive(
+        "quiet_large_windows",
+        3 * 10,
+        &move |i| {
+            let n = [4500usize, 6000, 10_000][(i % 3) as usize];
+            let a = 1e-5 * 2f64.powi((i / 3) as i32);
+            let base = [100.0f64, 0.37, 85_180.0][((i / 3) % 3) as usize];
+            let mut st = seedl ^ (i + 29).wrapping_mul(0xD6E8FEB86659FD93);
+            let bars: Vec<RawBar> = (0..n + 60)
+                .map(|_| {
+                    let x = base * (1.0 + a * (2.0 * unit(&mut st) - 1.0));
+                    let w = x * a * 0.05 * unit(&mut st);
+                    RawBar { o: x, h: x + w, l: x - w, c: x + w * (2.0 * unit(&mut st) - 1.0), v: 10.0 }
+                })
+                .collect();
+            Case { cfg: crate::hist::cfg_small(Kind::Cci, n), scalar: false, xs: vec![], bars, stride: n / 12 }
         },
         &check,
     );
